@@ -14,7 +14,7 @@ from .c13 import _Variants
 PROPERTY = "C19"
 LEVEL = "exploration"
 RULE = ("Every monitored call on one model is replayed on the four sibling classes and the outcomes (value or exception "
-        "class) compared: predict_win/draw/rank on identical (mu, sigma) and parameters (1e-12 relative; differences in "
+        "class) compared: predict_win/draw/rank on identical (mu, sigma) and parameters (1e-12 absolute on probabilities; differences in "
         "(0,1e-12] are counted as ulp_level_divergences); the C13 grammar of malformed and well-formed arguments (same "
         "accept/reject decision, same exception class); public operations and their signatures (names, kinds, defaults; "
         "default gamma compared by behaviour; annotations ignored); rating classes on a common probe set (comparison "
@@ -97,7 +97,18 @@ def probe_pred(ctx, payload):
                 ctx.violation("predict/cross-model", "pred", payload, dict(op=op, base=repr(base)[:150], other=repr(o)[:150]), m, reg)
                 continue
             if o[0] == "val":
-                d = max((_rel(x, y) for x, y in zip(o[1], base[1])), default=0.0)
+                # probabilities: 1e-12 ABSOLUTE (a relative test on a tail probability of 1e-200 measures the rounding of
+                # the summed team mu, amplified by |x|, not a difference between the copies); predict_rank's integer ranks
+                # are compared only where the probabilities are not within rounding of a tie
+                if op == "predict_rank":
+                    pa, pb = base[1][1::2], o[1][1::2]
+                    ra, rb = base[1][0::2], o[1][0::2]
+                    near_tie = any(abs(x - y) <= 1e-12 for i, x in enumerate(pa) for y in pa[i + 1:])
+                    d = max((abs(x - y) for x, y in zip(pa, pb)), default=0.0)
+                    if ra != rb and not near_tie:
+                        d = 1.0
+                else:
+                    d = max((abs(x - y) for x, y in zip(o[1], base[1])), default=0.0)
                 if d > 1e-12:
                     ctx.violation("predict/cross-model", "pred", payload,
                                   dict(op=op, model_a=MODEL_NAMES[0], a=base[1][:8], b=o[1][:8], rel=d), m, f"{op}/{reg}")
